@@ -23,7 +23,7 @@ def lossy_scenario(r, it, tier, small_volume=True, modes=(0, 1, 2, 3), cfg=None,
 def finish(sim, drain=True, max_ticks=700):
     ok = None
     if drain:
-        ok = sim.drain(max_ticks=max_ticks, dt_ns=20_000_000, slow_dt_ns=8_000_000_000)
+        ok = sim.drain(max_ticks=max_ticks * 4, dt_ns=20_000_000)
         for ep in sim.eps:
             sim.probe(ep); sim.get(ep)
     sim.drained = ok
